@@ -147,7 +147,7 @@ func c01Property(t *rapid.T, rec *evid.Rec, st *stack.Stack, sc stackCase, maxSt
 		defer ses.close()
 		model := refmodel.New()
 		keys := genAlphabet(t)
-		opts := cmdGenOpts{Binary: sc.Binary, Keys: keys, TwoPorts: sc.Cfg.Shape == "l1l2+batch"}
+		opts := cmdGenOpts{Binary: sc.Binary, Keys: keys, TwoPorts: sc.Cfg.Shape == "l1l2+batch", GetE: sc.Cfg.Shape == "l1only" && sc.Cfg.L1 != "chunked"}
 		n := rapid.IntRange(1, maxSteps).Draw(t, "steps")
 		var cmds []wire.Cmd
 		var fp strings.Builder
